@@ -6,6 +6,8 @@ import (
 	"strings"
 	"time"
 
+	sdk "github.com/cosmos/cosmos-sdk/types"
+
 	packettypes "github.com/bianjieai/tibc-go/modules/tibc/core/04-packet/types"
 
 	"verif/mc/explore"
@@ -95,6 +97,23 @@ func CleanStepCheck(m *PktModel, w *world.World, ev *StepEvent) []explore.Findin
 			add("recvclean-accepted-without-source-clean-point:honest-step", fmt.Sprintf("N=%d", n))
 		}
 	}
+	cleanEffects(bm, am, ch, n, ev.Kind == "recvclean", add)
+	return fs
+}
+
+func beUint(b []byte) uint64 {
+	var v uint64
+	for _, x := range b {
+		v = v<<8 | uint64(x)
+	}
+	return v
+}
+
+// cleanEffects judges what an accepted clean of channel ch up to n changed: the clean point is n, the only other changes
+// are deletions of that channel's receipts and acknowledgements with sequence <= n, and where receipts and
+// acknowledgements are kept (recvSide) none at or below n is left.
+func cleanEffects(bm, am map[string][]byte, ch string, n uint64, recvSide bool, add func(sig, detail string)) {
+	prevKey := "tibc|clean/" + ch
 	if beUint(am[prevKey]) != n {
 		add("accepted-clean-did-not-set-clean-point", fmt.Sprintf("N=%d stored=%d", n, beUint(am[prevKey])))
 	}
@@ -125,7 +144,7 @@ func CleanStepCheck(m *PktModel, w *world.World, ev *StepEvent) []explore.Findin
 		}
 	}
 	// cleaning removes receipts and acknowledgements up to N on chains that hold them
-	if ev.Kind == "recvclean" {
+	if recvSide {
 		for k := range am {
 			for _, pre := range []string{"tibc|receipts/" + ch + "/sequences/", "tibc|acks/" + ch + "/sequences/"} {
 				if strings.HasPrefix(k, pre) {
@@ -136,15 +155,104 @@ func CleanStepCheck(m *PktModel, w *world.World, ev *StepEvent) []explore.Findin
 			}
 		}
 	}
-	return fs
 }
 
-func beUint(b []byte) uint64 {
-	var v uint64
-	for _, x := range b {
-		v = v<<8 | uint64(x)
+// crossChannelCleans: four channels that share chains in different roles — X = A->B direct, Y = A->C through relay
+// chain B, Z = B->C direct, W = C->A through relay chain B: B is destination of X, relay chain of Y and W, source of Z;
+// C is destination of Y and Z and source of W. Two packets on each are delivered
+// and acknowledged. Then each channel is cleaned up to N in {1,2} hop by hop; on every chain the clean passes what it
+// changed is compared with the rule (only that channel's receipts and acknowledgements up to N and its clean point),
+// and afterwards every original receive message of every channel is replayed verbatim on the chain that accepted it.
+func crossChannelCleans() []explore.Finding {
+	base := world.NewWorld(world.WorldOpts{Names: []string{A, B, C}})
+	setRules(base, B, []string{"*,*,*"})
+	type chanSpec struct{ name, src, dst, relay string }
+	chans := []chanSpec{{"X", A, B, ""}, {"Y", A, C, B}, {"Z", B, C, ""}, {"W", C, A, B}}
+	type sent struct {
+		msg sdk.Msg
+		at  string
+		id  string
 	}
-	return v
+	var recvs []sent
+	mockAck := []byte("mock acknowledgement")
+	for _, ch := range chans {
+		for seq := uint64(1); seq <= 2; seq++ {
+			p := packettypes.NewPacket([]byte(fmt.Sprintf("%s-%d", ch.name, seq)), seq, ch.src, ch.dst, ch.relay, "tibcmock")
+			if err := base.SendMock(base.C(ch.src), p); err != nil {
+				panic(err)
+			}
+			hops := route(p)
+			for i := 1; i < len(hops); i++ {
+				if r, err := base.RelayRecv(p, base.C(hops[i])); err != nil || !r.OK() {
+					panic(fmt.Sprint("cross-channel set-up: recv failed ", err, r.Log))
+				}
+				recvs = append(recvs, sent{base.LastMsg, hops[i], fmt.Sprintf("%s#%d@%s", ch.name, seq, hops[i])})
+			}
+			for i := len(hops) - 2; i >= 0; i-- {
+				if r, err := base.RelayAck(p, mockAck, base.C(hops[i])); err != nil || !r.OK() {
+					panic(fmt.Sprint("cross-channel set-up: ack failed ", err, r.Log))
+				}
+			}
+		}
+	}
+	ready := base.Freeze()
+	type plan struct {
+		ch chanSpec
+		n  uint64
+	}
+	var plans []plan
+	for _, ch := range chans {
+		for n := uint64(1); n <= 2; n++ {
+			plans = append(plans, plan{ch, n})
+		}
+	}
+	fs := RunScripts(base, ready, len(plans), func(i int, w *world.World) []explore.Finding {
+		pl := plans[i]
+		var out []explore.Finding
+		path := []string{"cross-channel", "X=A>B, Y=A>C via B, Z=B>C, W=C>A via B: two packets each, delivered and acknowledged", fmt.Sprintf("clean %s up to %d, hop by hop", pl.ch.name, pl.n)}
+		add := func(sig, detail string) {
+			out = append(out, explore.Finding{Property: "C10", Signature: sig + ":cross-channel", Detail: fmt.Sprintf("clean(%s,%d): %s", pl.ch.name, pl.n, detail), Path: path})
+		}
+		dump := func(c *world.Chain) map[string][]byte {
+			m := map[string][]byte{}
+			for _, kv := range c.DumpStores("tibc") {
+				if !skipClients(kv) {
+					m[kv.Store+"|"+string(kv.K)] = kv.V
+				}
+			}
+			return m
+		}
+		cp := packettypes.CleanPacket{Sequence: pl.n, SourceChain: pl.ch.src, DestinationChain: pl.ch.dst, RelayChain: pl.ch.relay}
+		src := w.C(pl.ch.src)
+		before := dump(src)
+		if r := w.Tx(src, src.Relayer(), &packettypes.MsgCleanPacket{CleanPacket: cp, Signer: src.Relayer().Addr.String()}); !r.OK() {
+			add("rightful-clean-refused", "on the source: "+r.Log)
+			return out
+		}
+		chName := pl.ch.src + "/" + pl.ch.dst
+		cleanEffects(before, dump(src), chName, pl.n, false, add)
+		hops := []string{pl.ch.src, pl.ch.dst}
+		if pl.ch.relay != "" {
+			hops = []string{pl.ch.src, pl.ch.relay, pl.ch.dst}
+		}
+		for _, h := range hops[1:] {
+			at := w.C(h)
+			before = dump(at)
+			if r, err := w.RelayClean(cp, at); err != nil || !r.OK() {
+				add("rightful-clean-refused", fmt.Sprintf("receive-clean on %s: %v %s", h, err, r.Log))
+				return out
+			}
+			cleanEffects(before, dump(at), chName, pl.n, true, add)
+		}
+		for _, r := range recvs {
+			if _, err := w.Try(w.C(r.at), r.msg); err == nil {
+				add("recv-replay-accepted:verbatim-old-proof", "original MsgRecvPacket "+r.id+" accepted again")
+			}
+		}
+		return out
+	})
+	ExtraCoverage["cross_channel"] = map[string]any{"channels": len(chans), "clean_plans": len(plans), "verbatim_replays_after_cleaning": len(plans) * len(recvs)}
+	return fs
 }
 
 // CheckC10: cleanup.
@@ -173,7 +281,7 @@ func CheckC10(tier string) int {
 		"clean(N) is offered on the source for every N in 1..max+1 in every state; accepted cleans are judged against the ghost (which sequences were sent and acknowledged on the source); receive-clean messages without the source's clean point behind them are probes that must be rejected",
 		"in all descendant states every packet and acknowledgement at or below a clean point is re-submitted with a fresh proof and must be rejected",
 		"long channel (scripted): 12 packets sent and delivered on one channel, every set of at most two unacknowledged sequences, clean(N) for every N in 1..13 judged against the same rule (two-digit sequence numbers, where decimal keys sort differently from numbers)",
-	}, commonAssumptions...), longChannelCleans(tier))
+	}, commonAssumptions...), append(longChannelCleans(tier), crossChannelCleans()...))
 }
 
 func init() {
@@ -194,12 +302,83 @@ func longChannelCleans(tier string) []explore.Finding {
 		}
 		pkts = append(pkts, p)
 	}
+	var recvMsgs, ackMsgs []sdk.Msg
 	for _, p := range pkts {
 		if r, err := base.RelayRecv(p, b); err != nil || !r.OK() {
 			panic(fmt.Sprint("long channel set-up: recv failed ", err, r.Log))
 		}
+		recvMsgs = append(recvMsgs, base.LastMsg)
 	}
 	delivered := base.Freeze()
+	// second part: all twelve acknowledged, then cleaned in one or two stages; what each clean removes is compared with
+	// the rule, and every original receive / acknowledgement message is replayed verbatim afterwards
+	for _, p := range pkts {
+		if r, err := base.RelayAck(p, []byte("mock acknowledgement"), a); err != nil || !r.OK() {
+			panic(fmt.Sprint("long channel set-up: ack failed ", err, r.Log))
+		}
+		ackMsgs = append(ackMsgs, base.LastMsg)
+	}
+	acked := base.Freeze()
+	type stages struct{ n1, n2 uint64 }
+	var plans []stages
+	for n1 := uint64(0); n1 < n; n1++ {
+		for n2 := n1 + 1; n2 <= n; n2++ {
+			plans = append(plans, stages{n1, n2})
+		}
+	}
+	effects := RunScripts(base, acked, len(plans), func(i int, w *world.World) []explore.Finding {
+		pl := plans[i]
+		wa, wb := w.C(A), w.C(B)
+		var out []explore.Finding
+		path := []string{"long-channel", "12 packets delivered and acknowledged", fmt.Sprintf("clean(%d) then clean(%d), each relayed to the destination", pl.n1, pl.n2)}
+		add := func(sig, detail string) {
+			out = append(out, explore.Finding{Property: "C10", Signature: sig + ":long-channel", Detail: fmt.Sprintf("stages %d,%d: %s", pl.n1, pl.n2, detail), Path: path})
+		}
+		dump := func(c *world.Chain) map[string][]byte {
+			m := map[string][]byte{}
+			for _, kv := range c.DumpStores("tibc") {
+				if !skipClients(kv) {
+					m[kv.Store+"|"+string(kv.K)] = kv.V
+				}
+			}
+			return m
+		}
+		for _, N := range []uint64{pl.n1, pl.n2} {
+			if N == 0 {
+				continue
+			}
+			cp := packettypes.CleanPacket{Sequence: N, SourceChain: A, DestinationChain: B}
+			before := dump(wa)
+			r := w.Tx(wa, wa.Relayer(), &packettypes.MsgCleanPacket{CleanPacket: cp, Signer: wa.Relayer().Addr.String()})
+			if !r.OK() {
+				add("rightful-clean-refused", fmt.Sprintf("clean(%d) on the source: %s", N, r.Log))
+				return out
+			}
+			cleanEffects(before, dump(wa), A+"/"+B, N, false, add)
+			before = dump(wb)
+			r, err := w.RelayClean(cp, wb)
+			if err != nil || !r.OK() {
+				add("rightful-clean-refused", fmt.Sprintf("receive-clean(%d) on the destination: %v %s", N, err, r.Log))
+				return out
+			}
+			cleanEffects(before, dump(wb), A+"/"+B, N, true, add)
+		}
+		for k, m := range recvMsgs {
+			if _, err := w.Try(wb, m); err == nil {
+				sig := "recv-accepted-at-or-below-clean-point:verbatim-old-proof"
+				if uint64(k+1) > pl.n2 {
+					sig = "recv-replay-accepted:verbatim-old-proof"
+				}
+				add(sig, fmt.Sprintf("original MsgRecvPacket of sequence %d accepted again", k+1))
+			}
+		}
+		for k, m := range ackMsgs {
+			if _, err := w.Try(wa, m); err == nil {
+				add("ack-replay-accepted:verbatim-old-proof", fmt.Sprintf("original MsgAcknowledgement of sequence %d accepted again", k+1))
+			}
+		}
+		return out
+	})
 	var subsets [][]uint64
 	subsets = append(subsets, nil)
 	for i := uint64(1); i <= n; i++ {
@@ -261,6 +440,7 @@ func longChannelCleans(tier string) []explore.Finding {
 		attempts += n + 1
 	}
 	_ = accepted
-	ExtraCoverage["long_channel"] = map[string]any{"packets": n, "unacknowledged_sets": len(subsets), "clean_attempts": attempts}
-	return fs
+	ExtraCoverage["long_channel"] = map[string]any{"packets": n, "unacknowledged_sets": len(subsets), "clean_attempts": attempts,
+		"two_stage_clean_plans": len(plans), "verbatim_replays_after_cleaning": len(plans) * 2 * n}
+	return append(fs, effects...)
 }
